@@ -69,6 +69,7 @@ def layouts(text, rng):
     yield 'token-per-line', '\n'.join(toks)
     yield 'tabs', '\t' + '\t\t'.join(toks) + '\t'
     yield 'comments', '\n'.join(line + '   # set "x" on all {1+2} [f] end # again' for line in plain.split('\n')) + '\n# the end'
+    yield 'comments-tight', '\n'.join((line.rstrip() + '# c') if line.strip() else line for line in plain.split('\n'))
     yield 'tight', tight(toks)
     yield 'abbrev', ' '.join(ABBREV.get(t, t) for t in toks)
     yield 'ragged', ''.join(t + rng.choice([' ', '  ', '\n', ' \t ', '\n\n  ']) for t in toks)
@@ -92,7 +93,7 @@ def codes(text):
 def name_uses(world, name):
     """Can `name` be a variable, a macro, a parameter, a routine?  (compile and run, value printed back)"""
     scripts = {
-        'as_variable': ('assign %s 5 print %s assign %s {%s + 1} print %s' % (name, name, name, name, name), [5, 6]),
+        'as_variable': ('assign %s 5 print %s assign %s {%s + 1} print %s assign %s "%s" print %s' % ((name,) * 8), [5, 6, name]),
         'as_macro': ('define %s 7 print %s hue %s print hue' % (name, name, name), [7, 7]),
         'as_parameter': ('define rtn_q with %s begin print %s assign %s 2 print {%s * 2} end rtn_q 9' % (name, name, name, name), [9, 4]),
         'as_routine': ('define %s begin print 1 end %s [%s] define rtn_w with p_1 begin return {p_1 + 1} end print [rtn_w 1]' % (name, name, name), [1, 1, 2]),
@@ -113,10 +114,16 @@ def run(report, replay=None):
     # (a) layouts of generated programs
     n_prog = 400 if tier == 'thorough' else 45
     equiv_records = []
-    for i in range(n_prog):
+    # every kind of token at the end of a line and next to every other kind (the generated programs have few time patterns)
+    fixed = ['time at 12:30 wait\nhue 5 set all\ntime at 1*:00 or 2:15 on all\ndefine m 7:45\ntime at m wait\ntime at *:*5 or m\nprint "a" println {1 + 2}',
+             'assign t 12:30\ntime at t\nwait\nassign s "x y"\nprint s\nprint 5\nprint -2.5\nprint hue\nprint [round 1.5]\nprint {3}\nunits raw\non all\nset "L"',
+             'define f with a b begin\nreturn {a + b}\nend\nprint [f 1 2]\nf 3 4\nrepeat 2 begin\nbreak\nend\nif {1 < 2} on all else off all\nset "L" zone 1 2\nduration 1.5\ntime 0']
+    for i in range(n_prog + len(fixed)):
         profile = rng.choice(['general', 'routines', 'loops', 'matrix', 'print', 'units'])
         seed = lang_props.hash_seed(report.seed, 'c16' + profile, i)
         rec = gen_lang.make_record(0, seed, profile, 25)
+        if i >= n_prog:
+            rec = dict(rec, text=fixed[i - n_prog], profile='fixed', fixed=True)
         base_ok, base_listing = listing(rec['text'])
         for label, variant in layouts(rec['text'], rng):
             ok, lst = listing(variant)
@@ -126,7 +133,7 @@ def run(report, replay=None):
             info[rid] = ('layout:' + label, rec['text'], variant, lst if not ok else '')
         # brackets / braces: same tree, different tokens -> same behaviour
         for label, style in (('brackets', A.Style(random.Random(1), bracket_calls=1.0)), ('braces', A.Style(random.Random(2), brace_atoms=1.0)),
-                             ('plain', A.Style(random.Random(3)))):
+                             ('plain', A.Style(random.Random(3)))) if i < n_prog else ():
             equiv_records.append((label, gen_lang.make_record(len(equiv_records), seed, profile, 25, style=style)))
     # (b) names
     alpha = 'abcxyzABCXYZ_019'
